@@ -59,3 +59,27 @@ Proof.
   eapply RM_nest with (p := 1) (ch := [2; 3; 9]); [|cbn; tauto|reflexivity|cbn; tauto].
   constructor. cbn; tauto.
 Qed.
+
+(* generated table (translator extract/gclocks.go, regenerated from /repo on every run): what ties the well-formed
+   traces of the lock-table theorem to the code.  Every GCLock call of a copy is followed at once by the deferred
+   GCUnlock of the same layout (each copy that begins also ends, on every return path), and the statements that touch
+   the lock table - under o.mu - are the ones the model transliterates: lock = one more lock or a fresh record with one;
+   unlock = one lock fewer, never below zero; a write marks an existing record and keeps its locks; Close returns before
+   collecting when the record is absent, unmodified or locked *)
+From Coq Require Import String.
+From Verif Require Import Gen.GCLockSites.
+Open Scope string_scope.
+Theorem C08_every_gclock_paired_with_deferred_unlock : forall s, In s gc_lock_sites -> gs_paired s = true.
+Proof.
+  assert (H : forallb gs_paired gc_lock_sites = true) by (vm_compute; reflexivity).
+  intros s Hin. rewrite forallb_forall in H. exact (H s Hin).
+Qed.
+Print Assumptions C08_every_gclock_paired_with_deferred_unlock.
+Example C08_lock_sites_nonempty : 1 <= List.length gc_lock_sites. Proof. vm_compute. repeat constructor. Qed.
+Example C08_lock_table_statements_pinned : gc_table_shapes = [
+  ("GCLock", "if gc, ok := o.modRefs[r.Path]; ok && gc != nil { gc.locks++ } else { o.modRefs[r.Path] = &ociGC{locks: 1} }");
+  ("GCUnlock", "if gc, ok := o.modRefs[r.Path]; ok && gc != nil && gc.locks > 0 { gc.locks-- }");
+  ("refMod", "if gc, ok := o.modRefs[r.Path]; ok && gc != nil { gc.mod = true } else { o.modRefs[r.Path] = &ociGC{mod: true} }");
+  ("Close", "if gc, ok := o.modRefs[r.Path]; !ok || !gc.mod || gc.locks > 0 { return nil }")
+].
+Proof. reflexivity. Qed.
